@@ -104,6 +104,8 @@ triples = [
     (1, 4, 14),  # 20 a q@[] 0.3
     (1, 4, 15),  # 21 a q@[] 0.30000000000000004   (same subject and predicate, objects that agree in 16 decimals)
     (3, 14, 16),  # 22 c q@[2525] p@[1492]
+    (1, 1, 5),  # 23 a p@[]   p@[i2]   an IMMUTABLE triple whose object is a temporal predicate (filters on the object field)
+    (2, 4, 9),  # 24 b q@[]   p@[i3]   ... and a second one, later anchor (latest on the object field)
 ]
 # triples stored with a non-canonical spelling of their predicate's anchor: triple index -> spelling text
 stored_spelling = {7: "2020-06-01T05:30:00.5-07:00", 12: "2020-01-01T02:00:00+02:00", 18: "1492-10-12T10:00:00+02:00"}
